@@ -789,16 +789,31 @@ def check_tables_and_dispatch(chk, ix):
     chk.rule("U3", WHAT["U3"])
     chk.rule("U4", WHAT["U4"])
     f = ix.func("behave.tag_expression.builder:_select_tag_expression_parser4auto")
-    consts = {}
-    for n in ast.walk(f.node):
-        if isinstance(n, ast.Assign) and isinstance(n.targets[0], ast.Name) and isinstance(n.value, ast.List):
-            try:
-                consts[n.targets[0].id] = [e.value for e in n.value.elts]
-            except AttributeError:
-                pass
+    # which keyword / prefix lists the selector hands to its word predicates (wherever those lists are defined)
+    seen = {}
+
+    def spy(name):
+        def stub(it_, st_, args, kw, node):
+            ks = args[1] if len(args) > 1 else None
+            if isinstance(ks, Ref):
+                ks = list(st_.obj(ks).items or [])
+            elif isinstance(ks, tuple):
+                ks = list(ks)
+            seen[name] = ks
+            return [(st_, "val", False)]
+        return stub
+    it = Interp(ix, stubs={"_any_word_starts_with": spy("prefixes"), "_any_word_contains_keyword": spy("v1kw"),
+                           "_any_word_is_keyword": spy("v2kw"), "_any_word_contains_wildcards": spy("wild")}, name="auto-detect tables")
+    it.int_sat = 50
+    st = State()
+    st.frames = []
+    it.call_function(st, f, ["a b"], {}, None)
+    chk.absorb(it)
+    if not isinstance(seen.get("v2kw"), list) or not isinstance(seen.get("prefixes"), list):
+        raise AnalysisError("anchor missing: the keyword / prefix lists of _select_tag_expression_parser4auto are not constant lists any more: %r" % (seen,))
     third = _third_party_keywords()
     chk.instance("U3")
-    v2 = set(consts.get("TAG_EXPRESSION_V2_KEYWORDS", []))
+    v2 = set(seen["v2kw"])
     if third and v2 == set(third.values()):
         chk.ok("U3", {"v2_keywords": sorted(v2), "third_party_tokens": third}, nontrivial_key="v2kw")
     elif not third:
@@ -806,20 +821,26 @@ def check_tables_and_dispatch(chk, ix):
         chk.ok("U3", {"v2_keywords": sorted(v2)}, nontrivial_key="v2kw-unverified")
     else:
         _fail(chk, "U3", f, "v2 keywords %s vs %s" % (sorted(v2), sorted(third.values())), "the v2 keyword list %s differs from the grammar's tokens %s" % (sorted(v2), sorted(third.values())))
-    prefixes = set(consts.get("TAG_EXPRESSION_V1_NOT_PREFIXES", []))
+    prefixes = set(seen["prefixes"])
+    # which prefixes v1's normalize_tag turns into the stored negation '-' (by evaluation, whatever its branch structure)
     nt = ix.func("behave.tag_expression.v1:TagExpression.normalize_tag")
+    it2 = Interp(ix, name="normalize_tag")
+    it2.int_sat = 50
     handled = set()
-    for n in ast.walk(nt.node):
-        if isinstance(n, ast.Call) and isinstance(n.func, ast.Attribute) and n.func.attr == "startswith" and n.args and isinstance(n.args[0], ast.Constant):
-            p = n.args[0].value
-            if p and p[0] in "-~":
-                handled.add(p[0])
-    handled.add("-")        # '-' is the stored form
+    for p_ in sorted(prefixes | {"~", "-", "!", "^"}):
+        for decorated in (p_ + "x", p_ + "@x"):
+            st = State()
+            st.frames = []
+            outs = it2.call_function(st, nt, [decorated], {}, None)
+            if len(outs) != 1 or outs[0][1] != "val" or not isinstance(outs[0][2], str):
+                raise AnalysisError("normalize_tag not foldable on %r" % decorated)
+            if outs[0][2] == "-x":
+                handled.add(p_)
     chk.instance("U3")
     if prefixes == handled:
-        chk.ok("U3", {"v1_not_prefixes": sorted(prefixes), "normalize_tag_handles": sorted(handled)}, nontrivial_key="v1 prefixes")
+        chk.ok("U3", {"v1_not_prefixes": sorted(prefixes), "normalize_tag_negates": sorted(handled)}, nontrivial_key="v1 prefixes")
     else:
-        _fail(chk, "U3", f, "v1 prefixes %s vs %s" % (sorted(prefixes), sorted(handled)), "auto-detection knows the NOT prefixes %s, normalize_tag handles %s" % (sorted(prefixes), sorted(handled)))
+        _fail(chk, "U3", f, "v1 prefixes %s vs %s" % (sorted(prefixes), sorted(handled)), "auto-detection knows the NOT prefixes %s, normalize_tag turns %s into a negation" % (sorted(prefixes), sorted(handled)))
     # U4 dispatch: evaluate TagExpressionProtocol.parse for every member (aliases included)
     from .index import EnumVal
     pc = ix.cls("behave.tag_expression.builder:TagExpressionProtocol")
